@@ -169,7 +169,7 @@ def agg_field_source(fn, pl):
     idx = pr[0]["f"]
     du = defuse(fn)
     l = pl["l"]
-    for _ in range(8):
+    for _ in range(32):
         from cfg import whole_defs
         ds = whole_defs(fn, l)
         if len(ds) != 1 or ds[0].is_term:
